@@ -13,7 +13,7 @@ EXTRA_TASKS = ['fuzz', 'sequences', 'array_ops']
 # properties whose public contracts are re-run as the deductive part of C20
 ALSO_PROPS = ['C03', 'C06', 'C15', 'C16', 'C04']
 
-DOCUMENTED = (ValueError, IndexError, TypeError, OSError)
+DOCUMENTED = (ValueError, IndexError, TypeError, OSError)     # (BufferError, AttributeError, AssertionError ... are not)
 
 
 def fuzz(tier='quick', seed=0):
@@ -188,7 +188,9 @@ def _seq_case(seed, i):
         return one() if rng.random() < 0.6 else one() + ', ' + one()
 
     def bitsarg():
-        return rng.choice([Bits(bin=rbits()), ConstBitStream(bin=rbits()), BitArray(bin=rbits()), '0b' + rbits(6), '0x' + 'f' * rng.randint(0, 3), b'\x01'])
+        raw = bytes(rng.randrange(256) for _ in range(rng.randint(0, 4)))
+        return rng.choice([Bits(bin=rbits()), ConstBitStream(bin=rbits()), BitArray(bin=rbits()), '0b' + rbits(6), '0x' + 'f' * rng.randint(0, 3), b'\x01',
+                           Bits(bin=rbits()), BitArray(bin=rbits()), bytearray(raw), memoryview(raw), memoryview(raw + raw)[::2], memoryview(raw)[::-1], [1, 0, 1], (True, False)])
 
     lsb0 = rng.random() < 0.3
     opt0 = (bitstring.options.lsb0, bitstring.options.bytealigned, bitstring.options.mxfp_overflow)
